@@ -5,9 +5,10 @@ RUNS = {}
 
 
 def _run(self):
-    key = (type(self).__module__, type(self).__qualname__, repr(self.f1))
+    var = self.f2 if type(self).__qualname__ == 'TE' else self.f1
+    key = (type(self).__module__, type(self).__qualname__, repr(var))
     RUNS[key] = RUNS.get(key, 0) + 1
-    return ['tv', type(self).__qualname__, repr(self.f1)]
+    return ['tv', type(self).__qualname__, repr(var)]
 
 
 @labtech.task
@@ -64,6 +65,15 @@ class M5:
     f3: object = 'a'
     f4: object = None
     f5: object = 1.0
+
+    def run(self):
+        return _run(self)
+
+
+@labtech.task
+class TE(T):
+    """a task type that extends the task type T with a parameter of its own (the grammar's value goes there)"""
+    f2: object = None
 
     def run(self):
         return _run(self)
